@@ -60,6 +60,7 @@ def idlCaseText (line : String) : Option Str :=
   match parse line with
   | some (.list [.atom "idl", t]) => (asStr t).map String.toList
   | some (.list [.atom "idl-deep", _, t]) => (asStr t).map String.toList
+  | some (.list [.atom "idl-lim", t]) => (asStr t).map String.toList
   | _ => none
 
 def idlLine (line : String) : String :=
